@@ -109,6 +109,19 @@ def get_all_zfiles(zdir: PathLike) -> Iterator[Path]:
     )
 
 
+def atomic_write_text(path: PathLike, contents: str) -> None:
+    """Replaces the contents of {path} with {contents} atomically.
+
+    The new contents are written to a temporary file first, which is then
+    moved over {path}. If we are killed half-way through, {path} still has its
+    old contents (instead of being empty or only partially written).
+    """
+    path = Path(path)
+    tmp_path = path.with_name(f".{path.name}.tmp")
+    tmp_path.write_text(contents)
+    tmp_path.replace(path)
+
+
 def flatten_h1_notes(h1s: Iterable[Any]) -> list[Any]:
     """Flattens the notes contained in a list of domain/SQL H1 sections."""
     notes = []
